@@ -540,6 +540,9 @@ Proof.
   repeat split; intros; cbn [write_of]; unfold addr_lo, addr_hi; rewrite ?land16, ?land32, ?shiftr32; reflexivity.
 Qed.
 
+Lemma some_pair_inj (k v1 v2 : Z) : Some (k, v1) = Some (k, v2) <-> v1 = v2.
+Proof. split; intros H; [congruence|subst; reflexivity]. Qed.
+
 Lemma no_truncation_lemma :
   (forall code p, write_of (Cmd0 code p) = Some (code, p) <-> 0 <= p < 65536) /\
   (forall code p, (exists v, write_of (Cmd0 code p) = Some (code, v) /\ s16 v = p) <-> -32768 <= p < 32768) /\
@@ -562,9 +565,8 @@ Proof.
   - intros code off p Ho. cbn [write_of]. rewrite (Z.mod_small off) by exact Ho. split; intros H.
     + injection H as H. pose proof (mod16_range p). lia.
     + rewrite (Z.mod_small p) by exact H. reflexivity.
-  - intros code a. rewrite <- addr48_id_iff. destruct write_of_masks as (_ & _ & H3). rewrite H3. split; intros H.
-    + injection H as H. exact H.
-    + rewrite H. reflexivity.
+  - intros code a. rewrite <- addr48_id_iff. destruct write_of_masks as (_ & _ & H3). rewrite H3.
+    apply some_pair_inj.
 Qed.
 
 Example no_truncation_example :
@@ -709,8 +711,13 @@ Lemma default_strides_fit b16 elem w d :
 Proof.
   intros He Hw Hd. unfold default_strides. destruct b16.
   - assert (Hq : 1 <= (d + 15) / 16 <= 4096) by (Z.div_mod_to_equations; lia).
-    repeat split; nia.
-  - repeat split; nia.
+    set (q := (d + 15) / 16) in *.
+    assert (Hew : 1 <= elem * w <= 262144) by nia.
+    replace (16 * elem * w) with (16 * (elem * w)) by ring.
+    replace (elem * w * (q * 16)) with ((elem * w) * (q * 16)) by ring.
+    set (ew := elem * w) in *. repeat split; nia.
+  - assert (Hed : 1 <= d * elem <= 262144) by nia.
+    set (de := d * elem) in *. repeat split; nia.
 Qed.
 
 Lemma field_fits_lemma :
@@ -733,13 +740,9 @@ Lemma field_fits_lemma :
      let '(sc, sy, sx) := default_strides b16 elem w d in
      0 <= sc < 1099511627776 /\ 0 <= sy < 1099511627776 /\ 0 <= sx < 1099511627776).
 Proof.
-  repeat split.
-  all: try (intros; first [ apply m1_fits; assumption | apply kernel_size_fits; assumption
-                          | apply kernel_stride_fits; assumption | apply activation_lut_fits; assumption
-                          | apply zero_point_fits; assumption | apply default_strides_fit; assumption ]).
-  all: try (intros; eapply precision_fits; eassumption).
-  all: try (intros; apply (broadcast_fits rv sc bh bw bc)).
-  all: try (intros; apply address_fits; assumption).
+  exact (conj m1_fits (conj kernel_size_fits (conj kernel_stride_fits (conj precision_fits
+        (conj activation_lut_fits (conj (fun rv sc bh bw bc => proj1 (broadcast_fits rv sc bh bw bc))
+        (conj address_fits (conj zero_point_fits default_strides_fit)))))))).
 Qed.
 
 Example field_fits_example :
